@@ -215,3 +215,22 @@ func VH_C07_NonString() {
 	symAssert(ok, "no-raw-specials")
 	symAssert(back == want, "decodes-back-to-text")
 }
+
+// VH_C07_Long: a symbolic piece of up to N bytes inside long text (lengths around chunk and buffer sizes
+// in front of it, 0 or 40 bytes behind): no raw special, decodes back.
+func VH_C07_Long() {
+	n := symChoice(symParam("N", 2) + 1)
+	pre := []int{7, 8, 15, 16, 31, 32, 63, 64, 255, 256, 1023, 4096, 70001}[symChoice(13)]
+	post := []int{0, 40}[symChoice(2)]
+	v := vhRepeat('a', pre) + symString(n) + vhRepeat('z', post)
+	name := "escape"
+	if symBool() {
+		name = "e"
+	}
+	out, err := vhC07Render(0, name, v)
+	symCover("rendered")
+	symAssert(err == nil, "no-error")
+	back, ok := vhUnescape(out)
+	symAssert(ok, "no-raw-specials")
+	symAssert(back == v, "decodes-back")
+}
